@@ -246,8 +246,21 @@ def accept(F, rep, rule="ACCEPT"):
         # tuple recursion requires equal lengths: the Tuple row is guarded
         for r in rows:
             if r["verdict"] == "recurse" and r["pats"] == (frozenset(["Tuple"]), frozenset(["Tuple"])):
-                rep.ob(rule, "%s|tuple-length-guard" % name, r["guard"],
-                       "element-wise tuple rule of %s is guarded by equal lengths" % name, line_of(r["arm"]))
+                # .. of the two operands: `a.len() == b.len()` with a, b the element lists the two sides of the pattern bind
+                g = peel(r["arm"].get("guard") or {})
+                sides = [b["hid"] for b in pat_bindings(r["arm"]["pat"])]
+                lens = []
+                if g.get("k") == "Binary" and g.get("op") == "Eq":
+                    for x in (g["l"], g["r"]):
+                        x = peel(x)
+                        if x.get("k") == "MethodCall" and x["m"] == "len":
+                            lens.append(peel(x["recv"]).get("hid"))
+                good = r["guard"] and len(lens) == 2 and len(sides) == 2 and set(lens) == set(sides)
+                rep.ob(rule, "%s|tuple-length-guard" % name, good,
+                       "element-wise tuple rule of %s is guarded by equal lengths of its two operands" % name if good else
+                       "the element-wise tuple rule of %s is not guarded by `a.len() == b.len()` of the two operands' element lists (%s): "
+                       "zip() stops at the shorter tuple, so `(1, 2) < (1, 2, 3)` is accepted" % (name, pp(g)[:60] if g else "no guard"),
+                       line_of(r["arm"]))
     defer_recorded(F, rep)
     # equ = unify
     fn = F.fn(TC + "equ")
@@ -580,6 +593,11 @@ def run(F, rep, tier):
     import c07
     c07.visit_loops_complete(F, rep)
     values_are_not_void(F, rep)
+    # .. and an `if` / `case` used as a value has one in every branch: a branch without a value makes the whole expression void
+    # (shared with C02 - the value would be nil where the checker says int)
+    import core
+    core.borrow(rep, c02.value_paths, lambda o: o["rule"] == "VALUE-PATH" and
+                ("|branch-without-value" in o["key"] or "|every-branch-counts" in o["key"] or "|returns-are-not-the-value" in o["key"]), F)
 
 # every variable-valued field of the resolved AST, classified by reading name_resolution.rs: a *binder* introduces the
 # variable (the resolver fills it from new_var/push_var), a *use* refers to one found by lookup
@@ -778,6 +796,8 @@ def pairing(F, rep):
     rep.floor("OPERAND-PAIR", "operator constraint sites relating two nodes", n, 11)
     n = tc.field_set_agreement(F, rep, "FIELD-SETS", F.fn(TC + "sub_unify"))
     rep.floor("FIELD-SETS", "blob/blob rows", n, 1)
+    n = tc.field_set_agreement(F, rep, "FIELD-SETS", F.fn(TC + "sub_unify"), variant="Enum", field="2")
+    rep.floor("FIELD-SETS", "enum/enum rows", n, 1)
 
 
 def unification_core(F, rep, rule="UNIFY-CORE"):
